@@ -303,6 +303,51 @@ func runC15(c *Ctx) {
 			})
 			c.Require("C15.R4 executer-mirror", "verification verdict", "-", "the generator includes a transaction only under the verdict the validator requires before executing it (a block with a pending/invalid transaction fails the node's own validation)", okC && okG && kC == kG, fmt.Sprintf("validator requires Result == %s (%v); generator accepts under Result == %s (%v)", kC, okC, kG, okG))
 		}
+		// … and the same execution verdict: whatever result makes the generator leave a transaction
+		// out must make the validator refuse a block that carries it
+		{
+			execFacts := func(fn *ssa.Function) (string, int) {
+				if fn == nil {
+					return "", 0
+				}
+				ff := factsOf(fn)
+				n := 0
+				all := ""
+				for _, b := range blocksDeep(fn) {
+					for _, in := range b.Instrs {
+						fa, ok := in.(*ssa.FieldAddr)
+						if !ok {
+							continue
+						}
+						o, st := ownerOfFieldBase(fa.X.Type())
+						if st == nil || !strings.HasSuffix(o, "labi.ExecuteTransactionResponse") || fieldNameOf(st.Field(fa.Field)) != "Events" {
+							continue
+						}
+						n++
+						var fs []string
+						for _, f := range ff.FactsAt(b) {
+							if f.IsCmp && f.L.Op == "field" && f.L.Sym == "Result" && strings.Contains(f.L.String(), "ExecuteTransaction(") && f.R.Op == "const" {
+								fs = append(fs, "Result "+f.Op.String()+" "+f.R.Sym)
+							}
+						}
+						sort.Strings(fs)
+						fs = dedupStrings(fs)
+						cur := strings.Join(fs, " and ")
+						if cur == "" {
+							cur = "any result"
+						}
+						if all != "" && all != cur {
+							cur = all + " | " + cur
+						}
+						all = cur
+					}
+				}
+				return all, n
+			}
+			vC, nC := execFacts(p.Fn("pkg/consensus.(*stateExecuter).Execute"))
+			vG, nG := execFacts(p.Fn("pkg/generator.(*stateExecuter).ExecuteTransaction"))
+			c.Require("C15.R4 executer-mirror", "execution verdict", "-", "the validator keeps a transaction's events (goes on with the block) under the same facts about the execution result as the generator does: a result for which the generator drops a transaction makes the validator reject the block, and the other way round", nC > 0 && nG > 0 && vC == vG, fmt.Sprintf("validator continues under: %s (%d sites); generator continues under: %s (%d sites)", vC, nC, vG, nG))
+		}
 		c.Require("C15.R4 executer-mirror", "consensus-side sequence", "-", "validator side: BFT hook → before → verify → execute → after → set next validators", okCons, strings.Join(cons, " → "))
 		// generator side must contain every step of the consensus side, in order
 		i := 0
@@ -515,3 +560,13 @@ func prevIsSelect(prev ssa.CallInstruction) bool {
 }
 
 var _ = fmt.Sprint
+
+func dedupStrings(xs []string) []string {
+	var out []string
+	for i, x := range xs {
+		if i == 0 || x != xs[i-1] {
+			out = append(out, x)
+		}
+	}
+	return out
+}
